@@ -26,7 +26,7 @@ FATAL_ERRNOS = {errno.EIO, errno.EMFILE, errno.ENOSPC}
 # ============================================================================ worlds
 def _labels(paths):
     lab = {}
-    for k in ("input", "ligand", "userff", "usernames", "output", "pdbout", "apbsout"):
+    for k in ("input", "ligand", "userff", "usernames", "propkacfg", "output", "pdbout", "apbsout"):
         p = paths.get(k)
         if isinstance(p, str) and os.sep in p:
             lab[os.path.realpath(p)] = k
